@@ -241,3 +241,105 @@ def _id(o, kind):
 
 for _f in ("Simulator._add_market", "Simulator._add_agent", "Simulator._add_session"):
     CHECKS[_f] = ((lambda k: (lambda: (c for c in registry_cases() if c["kind"] == k)))(_f.rsplit("_", 1)[1]), check_registry)
+
+
+# ----------------------------------------------------------------------------- Agent.setup: accessible markets are exactly the listed ids (C18)
+class _SetupAgent:
+    pass
+
+
+def check_agent_setup(case):
+    from pams.agents import Agent
+    from pams.simulator import Simulator
+
+    class A(Agent):
+        def submit_orders(self, markets):
+            return []
+    sim = Simulator(prng=random.Random(0))
+    ag = A(agent_id=0, prng=random.Random(5), simulator=sim, name="a")
+    pre = case.get("pre", [])
+    for mid in pre:
+        ag.set_market_accessible(mid); ag.set_asset_volume(mid, 7)
+    ids = case["ids"]; vol = case["volume"]
+    settings = {"cashAmount": case.get("cash", 1000)}
+    if vol is not None:
+        settings["assetVolume"] = vol
+    bad = vol is None or len(set(ids)) != len(ids) or any(i in pre for i in ids)
+    try:
+        ag.setup(settings=settings, accessible_markets_ids=list(ids))
+    except ValueError:
+        return None if bad else f"ids {ids} (already accessible {pre}): a valid setup was rejected"
+    if bad:
+        return f"ids {ids} (already accessible {pre}), assetVolume {vol}: an invalid setup was accepted"
+    for mid in range(-1, 6):
+        if ag.is_market_accessible(mid) != (mid in ids or mid in pre):
+            return f"ids {ids} (already accessible {pre}): is_market_accessible({mid}) = {ag.is_market_accessible(mid)}"
+    if any(ag.get_asset_volume(m) != 7 for m in pre):
+        return f"ids {ids}: the position of a market that was accessible before changed"
+    if isinstance(vol, int) and any(ag.get_asset_volume(m) != vol for m in ids):
+        return f"ids {ids}, assetVolume {vol}: positions {[ag.get_asset_volume(m) for m in ids]} are not the configured volume"
+    if isinstance(vol, list) and any(not (min(vol) <= ag.get_asset_volume(m) <= max(vol)) for m in ids):
+        return f"ids {ids}, assetVolume {vol}: a position lies outside the configured range"
+    if ag.get_cash_amount() != case.get("cash", 1000):
+        return "cash amount is not the configured one"
+    return None
+
+
+def agent_setup_cases():
+    for r in (0, 1, 2, 3):
+        for ids in itertools.product(range(4), repeat=r):
+            for vol in (10, 0, [3, 9], None):
+                for pre in ([], [1]):
+                    yield {"ids": list(ids), "volume": vol, "pre": pre}
+
+
+CHECKS["Agent.setup"] = (agent_setup_cases, check_agent_setup)
+for _f in ("Agent.is_market_accessible", "Agent.set_market_accessible", "Agent.set_asset_volume"):
+    CHECKS[_f] = (agent_setup_cases, check_agent_setup)
+
+
+# ----------------------------------------------------------------------------- agents can access exactly the markets of the groups they list (C18), on the real runner
+def check_access(case):
+    import contextlib, io, random as _r
+    from pams.runners import SequentialRunner
+    groups = case["groups"]          # group name -> number of markets
+    listed = case["listed"]
+    cfg = {"simulation": {"markets": list(groups), "agents": ["A"], "sessions": [{"sessionName": 0, "iterationSteps": 1, "withOrderPlacement": False, "withOrderExecution": False, "withPrint": False}]},
+           "A": {"class": "FCNAgent", "numAgents": 2, "markets": list(listed), "assetVolume": 10, "cashAmount": 1000, "fundamentalWeight": 1.0, "chartWeight": 0.0, "noiseWeight": 1.0,
+                 "meanReversionTime": 50, "noiseScale": 0.001, "timeWindowSize": 10, "orderMargin": 0.0}}
+    for g, n in groups.items():
+        cfg[g] = {"class": "Market", "tickSize": 1.0, "marketPrice": 100.0}
+        if n > 1:
+            cfg[g]["numMarkets"] = n
+    r = SequentialRunner(settings=cfg, prng=_r.Random(1))
+    try:
+        with contextlib.redirect_stdout(io.StringIO()):
+            r._setup()
+    except Exception as e:      # noqa
+        dup = len(set(listed)) != len(listed)
+        return None if dup else f"groups {groups}, agent lists {listed}: setup failed with {type(e).__name__}: {e}"
+    if len(set(listed)) != len(listed):
+        return f"groups {groups}, agent lists {listed}: a group listed twice was accepted"
+    want = set()
+    for g in listed:
+        want |= {m.market_id for m in r.simulator.markets_group_name2market[g]}
+    by_group = {g: [m.market_id for m in r.simulator.markets if m.name == g or m.name.startswith(g + "-")] for g in groups}
+    want2 = set(i for g in listed for i in by_group[g])
+    for ag in r.simulator.agents:
+        got = {m.market_id for m in r.simulator.markets if ag.is_market_accessible(m.market_id)}
+        if got != want or got != want2:
+            return f"groups {groups}, agent lists {listed}: agent {ag.name} can access markets {sorted(got)}, the listed groups hold {sorted(want2)}"
+    return None
+
+
+def access_cases():
+    names = ["X", "Y", "Z"]
+    for sizes in itertools.product((1, 2, 3), repeat=3):
+        groups = dict(zip(names, sizes))
+        for r in (1, 2, 3):
+            for listed in itertools.permutations(names, r):
+                yield {"groups": groups, "listed": list(listed)}
+    yield {"groups": {"X": 2, "Y": 1, "Z": 1}, "listed": ["X", "X"]}
+
+
+CHECKS["SequentialRunner._generate_agents[accessible-markets]"] = (access_cases, check_access)
